@@ -61,6 +61,10 @@ theorem gen_ipmw_eq : Gen.Tables.ipmw = ipmw := rfl
 theorem gen_ipcw_eq : Gen.Tables.ipcw = ipcw := rfl
 theorem gen_monteCarlo_eq : Gen.Tables.monteCarlo = monteCarlo := rfl
 theorem gen_iterCond_eq : Gen.Tables.iterCond = iterCond := rfl
+/-- the four cross-fit estimators have no hand-written predecessor: their tables were first obtained from the analysis
+    (`Model/History.lean` `crossfit` records the result for review) -/
+theorem gen_xfit_eq : Gen.Tables.xfSingleAiptw = crossfit ∧ Gen.Tables.xfDoubleAiptw = crossfit ∧
+    Gen.Tables.xfSingleTmle = crossfit ∧ Gen.Tables.xfDoubleTmle = crossfit := ⟨rfl, rfl, rfl, rfl⟩
 
 example : (Gen.Tables.tmle true).sig 1 = spec 1 ∧ (Gen.Tables.tmle false).sig 1 = { writes := some 1, blocked := true } ∧
     (Gen.Tables.monteCarlo).sig 4 = fitS [0, 1] := by decide
@@ -70,7 +74,7 @@ theorem gen_clsByName_eq (name : String) (b : Bool) : Gen.Tables.clsByName name 
   unfold Gen.Tables.clsByName clsByName
   simp only [gen_iptw_eq, gen_stochIptw_eq, gen_aiptw_eq, gen_tmle_eq, gen_stochTmle_eq, gen_timeFixed_eq,
     gen_survival_eq, gen_snm_eq, gen_ipsw_eq, gen_gtransport_eq, gen_aipsw_eq, gen_ipmw_eq, gen_ipcw_eq,
-    gen_monteCarlo_eq, gen_iterCond_eq]
+    gen_monteCarlo_eq, gen_iterCond_eq, gen_xfit_eq.1, gen_xfit_eq.2.1, gen_xfit_eq.2.2.1, gen_xfit_eq.2.2.2]
   split <;> first
     | rfl
     | (split <;> first | rfl | (exfalso; simp_all))
